@@ -159,6 +159,8 @@ class UFAirfoil(LinearAirfoil):
             if a.size == 1 and n > 1:
                 a = np.repeat(a, n)
             return a
+        if any(isinstance(x, np.ndarray) and x.size == 0 for x in (alpha, Rey, Mach, d_f, c_f)):
+            return facade._obj((0,), 0.0)
         n = max(np.size(alpha), np.size(Rey) if Rey is not None else 1, np.size(Mach) if Mach is not None else 1, np.size(d_f), np.size(c_f))
         al, re, ma, df, cf = (arr(x if x is not None else 0.0, n) for x in (alpha, Rey, Mach, d_f, c_f))
         out = facade._obj((n,), 0.0)
